@@ -154,7 +154,7 @@ fn short_file(loc: &str) -> String {
 /// First words of a panic message, digits removed: stable across line shifts, distinguishes causes.
 fn slug(msg: &str) -> String {
     let cleaned: String = msg.chars().map(|c| if c.is_ascii_alphabetic() { c.to_ascii_lowercase() } else { ' ' }).collect();
-    cleaned.split_whitespace().take(4).collect::<Vec<_>>().join("-")
+    cleaned.split_whitespace().take(2).collect::<Vec<_>>().join("-")
 }
 
 pub struct Outcome {
